@@ -56,9 +56,16 @@ def index():
         if not os.path.exists(mp):
             continue
         m = json.load(open(mp))
-        need = " ".join(str(m.get("needs_to_manifest", "")).split())
+        txt = str(m.get("needs_to_manifest", ""))
+        np_ = os.path.join(SEEDED, name, "notes.md")
+        if os.path.exists(np_):
+            txt = open(np_).read()
+        title = next((l.strip("# ").strip() for l in txt.split("\n") if l.strip()), "")
+        keys = ("manifest", "trigger", "need", "shows", "only when", "only for", "only if")
+        hits = [l.strip("-* ").strip() for l in txt.split("\n")[1:] if any(k in l.lower() for k in keys)]
+        need = " ".join((title + " -- " + " ".join(hits[:2])).split())
         rows.append("| %s | %s | %s | %s | %s |" % (
-            name, m["breaks_property"], need[:220].replace("|", "/"),
+            name, m["breaks_property"], need[:420].replace("|", "/"),
             ", ".join(m["what_was_run"]["checks_reporting_violation"]) or "**none**",
             ", ".join(m["what_was_run"]["checks_silent"]) or "-"))
     with open(os.path.join(SEEDED, "INDEX.md"), "w") as f:
